@@ -155,6 +155,30 @@ func observeEngine(c *realChain, wh *types.WorkObjectHeader) engObs {
 	return o
 }
 
+// engineErrorAccepted: when the engine cannot produce a PoW hash for the object (ComputePowHash answers an error, e.g. the
+// mix hash does not belong to the nonce) no call may treat the object as carrying work.  Not for the donor-hash chains,
+// whose classification does not go through the engine.
+func engineErrorAccepted(h *H, kind, variant, what string, o engObs) {
+	if kind == "donor" || !strings.HasPrefix(o.cph, "err:") {
+		return
+	}
+	bad := func(call, got string) {
+		h.fail("engine-error-accepted:"+kind+":"+call, fmt.Sprintf("%s: the %s engine answers %s for the object (%s) - it has no proof-of-work hash - and %s answers %s {%s}", variant, kind, o.cph, what, call, got, o))
+	}
+	if o.seal == "ok" {
+		bad("VerifySeal", o.seal)
+	}
+	if o.class != "WsInvalid" && o.class != "panic" {
+		bad("UncleWorkShareClassification", o.class)
+	}
+	if o.share != "WsInvalid" && o.share != "panic" {
+		bad("CheckIfValidWorkShare", o.share)
+	}
+	if o.thr == "true" {
+		bad("CheckWorkThreshold", o.thr)
+	}
+}
+
 func (o engObs) field(i int) string {
 	return []string{o.seal + "/" + o.pow, o.cph, o.class, o.share, o.thr}[i]
 }
@@ -476,6 +500,10 @@ func caseEngine(h *H, r *hlib.Rng, variant string) {
 		mu := mutant{m: m, wh: x, cold: observeEngine(newRealChain(e0kind), x)}
 		muts = append(muts, mu)
 		h.rep.Count("engine-mutant:" + kind + "/" + m.name + "/" + mu.cold.seal)
+		engineErrorAccepted(h, kind, variant, "honest header with "+m.name+" changed, fresh engine", mu.cold)
+		if strings.HasPrefix(mu.cold.cph, "err:") {
+			h.rep.Count("engine-error-object:" + kind + "/" + m.name)
+		}
 		if m.kernelInput {
 			if l := coldLight(x); l == honestLight {
 				h.fail("engine-pow-covers:"+kind+":"+m.name, fmt.Sprintf("the %s PoW hash does not change after changing %s (%s)", kind, m.name, variant))
@@ -483,6 +511,7 @@ func caseEngine(h *H, r *hlib.Rng, variant string) {
 		}
 	}
 	compare := func(order string, m string, warm, cold engObs) {
+		engineErrorAccepted(h, kind, variant, "honest header with "+m+" changed, "+order, warm)
 		for i, call := range engCalls {
 			if warm.field(i) == cold.field(i) {
 				continue
